@@ -46,6 +46,35 @@ fn ident_new_proved(cx: &Cx) -> BTreeSet<String> {
     }
     constant.difference(&computed).cloned().collect()
 }
+/// a self-recursive function all of whose parameters (besides `self`) are fieldless crate enums has a finite argument
+/// domain: it terminates iff evaluating it on every argument combination completes within the call-depth bound
+fn finite_domain_recursion_terminates(cx: &Cx, scc: &[String]) -> bool {
+    use crate::eval::{St, Ty, Val};
+    if scc.len() != 1 { return false; }
+    // MIR name `module::Type::method` -> index name `Type::method`
+    let parts: Vec<&str> = scc[0].split("::").collect();
+    let qual = if parts.len() >= 2 { format!("{}::{}", parts[parts.len() - 2], parts[parts.len() - 1]) } else { scc[0].clone() };
+    let Some(f) = cx.ix.get_fn(&qual).or_else(|| cx.ix.get_fn(parts[parts.len() - 1])) else { return false };
+    let mut domains: Vec<Vec<Val>> = Vec::new();
+    for inp in &f.sig.inputs {
+        let syn::FnArg::Typed(pt) = inp else { continue };
+        let tn = crate::index::ty_str(&pt.ty);
+        let Some(en) = cx.ix.enums.get(tn.trim_start_matches('&')) else { return false };
+        if en.variant_fields.iter().any(|v| !v.is_empty()) { return false; }
+        domains.push(en.variants.iter().map(|v| Val::Enum { ty: en.name.clone(), var: v.clone(), args: vec![] }).collect());
+    }
+    if domains.is_empty() { return false; }
+    let mut combos: Vec<Vec<Val>> = vec![vec![]];
+    for d in &domains { combos = combos.into_iter().flat_map(|c| d.iter().map(move |v| { let mut c2 = c.clone(); c2.push(v.clone()); c2 })).collect(); if combos.len() > 256 { return false; } }
+    let ev = mk_ev(&cx.ix);
+    let self_val = f.self_ty.as_ref().map(|t| Val::Sym { ty: Ty::Named(t.clone(), vec![]), path: "self".into() });
+    for c in combos {
+        let outs = ev.call_fn(St::new(), &f, if f.sig.receiver().is_some() { self_val.clone() } else { None }, c);
+        if outs.is_empty() { return false; }
+    }
+    let uns = ev.unsupported.borrow();
+    uns.iter().all(|u| u.starts_with("soft:"))
+}
 fn site_is(loc: &str, dead: &BTreeSet<String>) -> bool {
     // loc: derive-ex/src/item_type.rs:200:12: 200:26
     let mut it = loc.split(':');
@@ -146,7 +175,7 @@ pub fn c16(cx: &Cx) -> i32 {
         }
         rep.floor("loops examined", nloops, 50);
         let sccs = f.recursive_sccs();
-        let hand: Vec<&Vec<String>> = sccs.iter().filter(|c| c.iter().any(|n| reach.contains(n) && !expn_fns.contains(n))).collect();
+        let hand: Vec<&Vec<String>> = sccs.iter().filter(|c| c.iter().any(|n| reach.contains(n) && !expn_fns.contains(n))).filter(|c| !finite_domain_recursion_terminates(cx, c)).collect();
         rep.check(hand.len() <= 1, "MR-termination", "call-graph", "recursion", &format!("recursive functions beyond the token substitution (which recurses on group nesting): {hand:?}"), "derive-ex/src", json!({}));
         if let Some(c) = hand.first() { rep.analysed.insert("recursive SCC (measure: group nesting depth)".into(), json!(c)); }
         rep.sample(json!({"panic sites": by_class}));
